@@ -12087,6 +12087,8 @@ CK_RV SoftHSM::CreateObject(CK_SESSION_HANDLE hSession, CK_ATTRIBUTE_PTR pTempla
 	if (object == NULL || !p11object->init(object))
 	{
 		delete p11object;
+		// Do not leave the partially built object behind
+		if (object != NULL) object->destroyObject();
 		return CKR_GENERAL_ERROR;
 	}
 
